@@ -393,6 +393,105 @@ func genParFacts() {
 		}
 	}
 
+	// objects taken from the context (ctx.Value(key).(*T)): one object per statement execution, reachable by
+	// every worker goroutine that evaluates a part of the statement — a function that writes such an object
+	// (directly or through a method, see summary.go) needs a lock.  Each such function is a body that may run
+	// in several goroutines at once.
+	cr := newRegion("objects taken from the context (shared by all workers of a statement)", token.NoPos)
+	for _, f := range p.Files {
+		for _, d := range f.Decls {
+			fd, ok := d.(*ast.FuncDecl)
+			if !ok || fd.Body == nil {
+				continue
+			}
+			tainted := map[types.Object]bool{}
+			isCtxValue := func(e ast.Expr) bool {
+				found := false
+				ast.Inspect(e, func(n ast.Node) bool {
+					switch x := n.(type) {
+					case *ast.FuncLit:
+						return false
+					case *ast.CallExpr:
+						if sel, ok := x.Fun.(*ast.SelectorExpr); ok && sel.Sel.Name == "Value" && len(x.Args) == 1 {
+							if tv, ok := p.Info.Types[sel.X]; ok && namedType(tv.Type) == "context.Context" {
+								found = true
+							}
+						}
+					case *ast.Ident:
+						if o := p.Info.Uses[x]; o != nil && tainted[o] {
+							found = true
+						}
+					}
+					return !found
+				})
+				return found
+			}
+			pure := func(e ast.Expr) bool { // the value itself, possibly asserted: not a field or a call result of it
+				for {
+					switch x := e.(type) {
+					case *ast.ParenExpr:
+						e = x.X
+						continue
+					case *ast.TypeAssertExpr:
+						e = x.X
+						continue
+					case *ast.Ident:
+						return true
+					case *ast.CallExpr:
+						sel, ok := x.Fun.(*ast.SelectorExpr)
+						return ok && sel.Sel.Name == "Value"
+					}
+					return false
+				}
+			}
+			for changed := true; changed; {
+				changed = false
+				ast.Inspect(fd.Body, func(n ast.Node) bool {
+					as, ok := n.(*ast.AssignStmt)
+					if !ok || len(as.Rhs) != 1 || !pure(as.Rhs[0]) || !isCtxValue(as.Rhs[0]) {
+						return true
+					}
+					if id, ok := as.Lhs[0].(*ast.Ident); ok && id.Name != "_" {
+						o := p.Info.Defs[id]
+						if o == nil {
+							o = p.Info.Uses[id]
+						}
+						if o != nil && !tainted[o] {
+							tainted[o] = true
+							changed = true
+						}
+					}
+					return true
+				})
+			}
+			if len(tainted) == 0 {
+				continue
+			}
+			b := &wbody{label: funcLabel(fd), multi: true}
+			v := a.newVisitor(cr, b, funcLabel(fd))
+			v.named = true
+			v.allowGo = true
+			v.methodPass = true
+			v.top = fd
+			any := false
+			for o := range tainted {
+				switch o.Type().Underlying().(type) {
+				case *types.Pointer, *types.Map, *types.Slice:
+					v.shared[o] = true
+					any = true
+				}
+			}
+			if !any {
+				continue
+			}
+			if cr.pos == token.NoPos {
+				cr.pos = fd.Pos()
+			}
+			cr.bodies = append(cr.bodies, b)
+			v.stmts(fd.Body.List)
+		}
+	}
+
 	// methods of the manager types (goroutine_manager.go): the accesses to the receiver's fields
 	type mfact struct {
 		typ, method, field string
